@@ -873,13 +873,19 @@ func emitCons(env *Env, sc string, k0 int, seqs []string, counts []int) {
 	bs := obiseq.BioSequenceSlice{}
 	for i, s := range seqs {
 		S = append(S, c19Chars(s))
+		if sc == "crowd" { // counts[i] read objects of count 1 instead of one object of count counts[i]
+			for n := 0; n < counts[i]; n++ {
+				bs = append(bs, obiseq.NewBioSequence(fmt.Sprintf("s%d_%d", i, n), []byte(s), ""))
+			}
+			continue
+		}
 		b := obiseq.NewBioSequence(fmt.Sprintf("s%d", i), []byte(s), "")
 		if counts[i] != 1 {
 			b.SetCount(counts[i])
 		}
 		bs = append(bs, b)
 	}
-	ev := map[string]any{"kind": "cons", "sc": sc, "k0": k0, "kused": -1, "S": S, "C": counts, "cons": []int{}, "err": 0, "pan": 0, "panmsg": ""}
+	ev := map[string]any{"kind": "cons", "sc": sc, "k0": k0, "kused": -1, "kmax": -1, "S": S, "C": counts, "cons": []int{}, "err": 0, "pan": 0, "panmsg": ""}
 	func() {
 		defer func() {
 			if r := recover(); r != nil {
@@ -894,6 +900,9 @@ func emitCons(env *Env, sc string, k0 int, seqs []string, counts []int) {
 		}
 		if k, ok := seq.GetIntAttribute("obiconsensus_kmer_size"); ok {
 			ev["kused"] = k
+		}
+		if m, ok := seq.GetIntAttribute("obiconsensus_kmer_max_occur"); ok {
+			ev["kmax"] = m
 		}
 		ev["cons"] = lettersDigits(string(seq.Sequence()))
 	}()
@@ -919,6 +928,12 @@ func recordCons(env *Env, rng *rand.Rand, i, maxlen int) {
 	for n := 1 + rng.Intn(5); n > 0; n-- {
 		seqs = append(seqs, string(mutate(rng, t, 1+rng.Intn(2))))
 		counts = append(counts, 1+rng.Intn(6))
+	}
+	if i%5 == 2 { // thousands of read objects sharing their k-mers (the weights are sums over all of them)
+		sc = "crowd"
+		for j := range counts {
+			counts[j] = 2000 + rng.Intn(3000)
+		}
 	}
 	emitCons(env, sc, k0, seqs, counts)
 }
@@ -1355,6 +1370,34 @@ func emitGraph(env *Env, rng *rand.Rand, sc string, k int, seqs []string, counts
 	if o.pathPan != "" || o.consPan != "" || o.cycPan != "" {
 		ev["pan"] = 1
 		ev["panmsg"] = o.cycPan + o.pathPan + o.consPan
+	}
+	// the life of the graph goes on: the light k-mers are removed (as obiconsensus does when it is asked for a
+	// minimal coverage) and the graph is asked again whether it has a cycle, and how many k-mers it holds
+	ev["fmin"], ev["cyc2"], ev["len2"] = 0, 0, 0
+	if o.cycPan == "" && len(PW) > 0 {
+		maxw := 0
+		for _, w := range PW {
+			if w > maxw {
+				maxw = w
+			}
+		}
+		fmin := 2
+		if maxw > 2 {
+			fmin = 2 + rng.Intn(maxw-1)
+		}
+		func() {
+			defer func() {
+				if r := recover(); r != nil {
+					ev["pan"], ev["panmsg"] = 1, "after FilterMinWeight: "+panicText(r)
+				}
+			}()
+			g.FilterMinWeight(fmin)
+			ev["fmin"] = fmin
+			ev["len2"] = g.Len()
+			if g.HasCycle() {
+				ev["cyc2"] = 1
+			}
+		}()
 	}
 	env.emit(ev)
 }
